@@ -712,6 +712,58 @@ namespace
 #endif
 }
 
+namespace
+{
+    // sizes beyond 16 bits: a vector of 70000 elements built by push_back, edited in the middle, compared with std::vector
+    struct BigVecWorld : World
+    {
+        const char *name() const override { return PROP_WORLD "<int> with more than 65535 elements"; }
+        unsigned weight(Tier) const override { return 1; }
+        Plan generate(Rng &r, Tier) override
+        {
+            Plan p;
+            p.cfg = {(int64_t)r.below(4), (int64_t)r.below(2)};
+            int n = (int)r.range(2, 5);
+            for (int i = 0; i < n; i++) p.ops.push_back({(int64_t)r.below(4), (int64_t)r.below(70000), (int64_t)r.below(1000)});
+            return p;
+        }
+        Result execute(const Plan &p, Trace &tr) override
+        {
+            Result res;
+            simalloc::st().reset((int)p.c(0), p.c(1) != 0);
+            {
+                typedef igris::vector<int, AllocX<int>> Vec;
+                Vec x;
+                std::vector<int> m;
+                x.reserve(66000); // (the vector grows one slot at a time: 70000 reallocations would only test patience)
+                for (int i = 0; i < 66000; i++) { x.push_back(i * 7); m.push_back(i * 7); }
+                auto same = [&](const char *when) {
+                    if (x.size() != m.size()) violate("C02/size@big", "%s: a vector of %zu elements reports size %zu", when, m.size(), x.size());
+                    for (size_t i = 0; i < m.size(); i += (i < 66000 - 40 && i > 40 && i % 4096 ? 511 : 1))
+                        if (x[i] != m[i]) violate("C02/sequence@big", "%s: element %zu of %zu is %d, std::vector has %d", when, i, m.size(), x[i], m[i]);
+                };
+                same("filled");
+                for (auto &o : p.ops)
+                {
+                    int k = (int)mod(arg(o, 0), 4);
+                    size_t pos = (size_t)mod(arg(o, 1), (int64_t)m.size());
+                    int val = (int)mod(arg(o, 2), 1000);
+                    if (k == 0) { x.insert((Vec::const_iterator)(x.data() + pos), val); m.insert(m.begin() + pos, val); }
+                    else if (k == 1) { size_t e = std::min(m.size(), pos + 3); x.erase(x.begin() + pos, x.begin() + e); m.erase(m.begin() + pos, m.begin() + e); }
+                    else if (k == 2) { x.resize(65536 + pos % 300); m.resize(65536 + pos % 300); }
+                    else { Vec c(x); if (!(c == x) || c.size() != m.size()) violate("C02/compare-eq", "a copy of a vector of %zu elements differs from it", m.size()); }
+                    tr.ev("big op %d -> %zu", k, m.size());
+                    same("after op");
+                }
+                probe("vector_over_65535_elements");
+            }
+            if (simalloc::live_blocks() != 0) violate("C02/allocator-balance", "%zu blocks still allocated after the vector was destroyed", simalloc::live_blocks());
+            res.nontrivial = true;
+            return res;
+        }
+    };
+}
+
 int main(int argc, char **argv)
 {
     VecWorld<int> wi(PROP_WORLD "<int>", false);
@@ -732,6 +784,8 @@ int main(int argc, char **argv)
     h.worlds.push_back(&wl);
     h.worlds.push_back(&wh);
     h.worlds.push_back(&wn);
+    BigVecWorld wb;
+    h.worlds.push_back(&wb);
     h.stub = {"SimAlloc behind the Allocator parameter (exact-size blocks, seed-chosen fill and reuse)", "Tracked element type (lifetime registry)", "std::vector / std::map / std::set reference"};
     return harness_main(h, argc, argv);
 }
